@@ -80,3 +80,11 @@ Definition spec_sx (c : nat) (ops : list op) : sx :=
   let '(s, outs) := srun (sempty c) ops in
   SL [sx_list sx_out outs;
       sx_list (fun e => SL [SZ (ekey e); SZ (evalue e); sx_nat (euses e)]) (entries s)].
+
+(* per-key view of the final state of the model: (key, value, uses), sorted; the
+   observable of a threaded run whose result does not depend on the interleaving
+   (disjoint keys per thread, no eviction possible) *)
+Definition keyview_sx (c : nat) (ops : list op) : sx :=
+  let s := state_of c ops in
+  sx_sorted_list (fun x => x)
+    (flat_map (fun b => map (fun kv => SL [SZ (fst kv); SZ (snd kv); sx_nat (freq b)]) (items b)) (buckets s)).
